@@ -3,27 +3,87 @@ from __future__ import annotations
 
 import itertools
 import os
+import pathlib
 import posixpath
 import shutil
 import sys
 import tempfile
 import threading
+import zipfile
 
+import translate.split_path
 from harness import core
 from harness.core import Atom
 
 ID = "C28"
 LEAN_MODULES = ["JinjaV.Props.C28"]
+GEN = [translate.split_path.gen]
 LEVEL = "proof"
 TRUSTED = [
-    "Model/Path.lean is a hand transcription of split_template_path, posixpath.join, ChoiceLoader and PrefixLoader "
-    "(loaders.py), tied by this correspondence run",
+    "translate/split_path.py reads the whole body of split_template_path into Gen/SplitPath.lean (a SplitProg: refusing "
+    "condition, keeping condition, stored expression); the interpreter Model/PathProg.lean is tied to the real function by "
+    "this correspondence run; the str->str functions a program applies are uninterpreted (theorems hold for every "
+    "interpretation)",
+    "Model/Path.lean is a hand transcription of posixpath.join, ChoiceLoader and PrefixLoader (loaders.py) and of "
+    "split_template_path (proved equal to the interpreter on the reference program), tied by this correspondence run",
+    "FileSystemLoader.get_source / PackageLoader.get_source (join of the search directory with the returned pieces, open) "
+    "are not modelled; the file system itself is the oracle (audit hook on every open, realpath of the returned filename, "
+    "sentinel contents)",
     "symbolic links and the operating system's path resolution are outside the model; the audit-hook run observes the "
     "real file opens instead",
 ]
-ASSUMPTIONS = ["search directories themselves do not contain symlinks pointing outside (followlinks is about listing only)"]
+ASSUMPTIONS = ["search directories themselves do not contain symlinks pointing outside (followlinks is about listing only)",
+               "os.sep or os.path.altsep is '/' (true of posixpath and ntpath) for the '/'-freedom of transformed pieces"]
+CLAIM = dict(
+    category="proof",
+    technique="Lean 4 proofs over the body of split_template_path READ from the source as a small program (any name, any "
+              "separators, every interpretation of the str->str functions it applies) and over the models of posixpath.join / "
+              "choice and prefix dispatch + exhaustive and Unicode look-alike differential names + file-system-oracle runs of "
+              "the real loaders",
+    text="Theorems (Props/C28.lean): the body of split_template_path is translated on every run into a program (refusing "
+         "condition, keeping condition, stored expression over chains of str->str function symbols; anything else makes the "
+         "translator raise). For EVERY such program whose stored expression is the one both branches test (safeProg), every "
+         "interpretation of the function symbols, every os.sep/altsep and every name, each returned piece is non-empty, is not "
+         "'.' or '..' and contains no separator, alternative separator or '/' (prog_split_safe, prog_split_no_slash); the "
+         "program read from the source satisfies safeProg (gen_prog_safe, by decide — a normalisation/strip/lower/replace/"
+         "decode applied after the test breaks this proof), hence gen_split_safe, and joining any search directory with what "
+         "it returns appends exactly those pieces as components, none '..' (gen_split_join_inside, join_inside); a "
+         "transformation after the test is unsafe for some interpretation (post_transform_can_escape); the interpreter on the "
+         "reference program is the hand model (refProg_is_model; split_safe, pardir_rejected); the choice loader answers "
+         "with the first loader that has the name and fails iff none has it (choice_first, choice_none_iff); the prefix "
+         "loader dispatches on the text before the first delimiter (prefix_dispatch). Tie: every name of <=3 (quick) / <=4 "
+         "(thorough) segments over 15 fragments plus names built from Unicode look-alikes of '.', '/', '\\' (fullwidth, "
+         "one/two-dot leaders, ellipsis, small forms, division/fraction/big solidus, NFKC/NFKD-foldable, combining and "
+         "zero-width sequences, padded/percent-encoded '..', NUL, device names, trailing dots/spaces; lone surrogates "
+         "end-to-end only) under POSIX and Windows separators against the hand model and the interpreted Gen program; the "
+         "same names against FileSystemLoader (str, Path, relative, symlinked, several directories, followlinks), "
+         "PackageLoader (directory and zip), PrefixLoader, ChoiceLoader, nested compositions, Environment.get_template / "
+         "include and ModuleLoader on a scratch tree with sentinel files at every level outside (oracle: every open() "
+         "recorded by an audit hook and the realpath of the returned filename lie under a search directory, no sentinel "
+         "content is returned); static and content-changing compositions of dict loaders.",
+    note="Trusted: Lean kernel; translator translate/split_path.py (ast) and interpreter Model/PathProg.lean (tied by "
+         "correspondence); hand model Model/Path.lean; get_source bodies, the OS path resolution and symlinks are outside the "
+         "model (observed through the file system only). Windows behaviour is model-only (separator parameters).",
+    design_ref="§5 C28",
+)
 
 FRAGS = ["..", ".", "", "a", "b.html", "\\", "C:", "~", "\x00", "é", "...", "a\\b", " ", "..a", "sub"]
+
+# look-alikes --------------------------------------------------------------------------------------
+# things that are, fold to, or can be mistaken for one '.'
+DOTS = [".", "\uff0e", "\u2024", "\ufe52", "\uff61", "\u3002", "\u00b7", "\u0701", "\u2e3c", ".\u0301", ".\u200b", "%2e", "%2E"]
+# … for '..' as a whole
+DOTDOTS = ["\u2025", "\u2026", "\u2025\u0301", "\ufe30", "\u205a", ":", "\u2236",
+           " ..", ".. ", "..\t", "..\n", "\u00a0..", "..\u3000", "..\u200b", "\ufeff..", "\u2060..", "..\x00", "\x00..",
+           "..\u0301", "\u0338..", "..\u0338", "..\u200d", "..;", "..%00", "%2e%2e", "%252e%252e", "\\x2e\\x2e",
+           "\\u002e\\u002e", "&#46;&#46;", ". .", "..\u00ad", "\u202e..", "..\u0307", "\u0323\u0323"]
+# … for '/' or '\\'
+SLASHES = ["\uff0f", "\u2215", "\u2044", "\u29f8", "\u2571", "\u0338", "\u2100", "\u2101", "\u2105", "\u2106", "\u00bd", "%2f", "%2F",
+           "%5c", "\\", "\uff3c", "\ufe68", "\u29f5", "\u2216", "\u29f9", "\u00a5", "\u20a9", "/\u0301", "\u200b/", "\x00"]
+WINDOWS = ["CON", "con", "Con.txt", "NUL", "nul.html", "aux.", "COM1", "a.", "a ", "a. .", "b.html.", "b.html ", "B.HTML", "Sub",
+           "b.html::$DATA", "C:", "c:", "C:\uff3c", "\\\\?\\C:", "~", "~root", "\uff23\uff2f\uff2e"]
+SURROGATES = ["\ud800", "\udc80", "\udcff", "\udcae\udcae", "..\udc80", "\udc2e\udc2e", "\ud83d", "a\udfff"]
+NORMAL = ["a", "sub", "b.html", "secret.txt", "deep", "é", "\uff0e\uff0e"]
 
 _audit = threading.local()
 _hook_installed = False
@@ -59,11 +119,220 @@ def real_split(name, sep=None, altsep=None):
         os.sep, os.path.altsep = saved
 
 
-def run(ctx, res):
-    global _hook_installed
-    jinja2 = core.import_jinja()
-    from jinja2.exceptions import TemplateNotFound
+def lookalike_names(ctx, rng, full):
+    """names built from look-alikes of '.', '..', '/' and '\\': whole segments that resemble (or fold to) '..' in front
+    of a sentinel's name, single segments that embed a look-alike separator between real '..', device names and trailing
+    dots/spaces, and random mixtures.  Returns (names, core): `core` is always looked up, the rest is sampled in quick."""
+    dd = [a + b for a in DOTS for b in DOTS if (a, b) != (".", ".")] + DOTDOTS
+    core_names, more = [], []
+    for seg in dd:
+        for k in (1, 2, 3):
+            for prefix in ("", "sub/"):
+                core_names.append(prefix + (seg + "/") * k + "secret.txt")
+            more.append("a/" + (seg + "/") * k + "b.html")
+            more.append((seg + "/") * k + "b.html")
+            more.append("/" + (seg + "/") * k + "secret.txt")
+            more.append("./" + (seg + "/") * k + "a")
+    for sl in SLASHES:
+        for d in ("..", "．．", "‥", ".․"):
+            core_names.append("sub" + sl + d + sl + d + sl + "secret.txt")
+            core_names.append(d + sl + "secret.txt")
+            more.append("sub/" + d + sl + d + sl + d + sl + "b.html")
+            more.append(d + sl + d + sl + d + sl + "secret.txt")
+            more.append(sl + d + sl + "secret.txt")
+    for w in WINDOWS + SURROGATES:
+        core_names += [w, w + "/b.html", "sub/" + w, w + "/../secret.txt", "a/" + w + "/b.html"]
+    pool = NORMAL + [".", "", ".."] + WINDOWS
+    for _ in range(ctx.pick(800, 8000)):
+        segs = []
+        for _ in range(rng.randrange(1, 6)):
+            r = rng.random()
+            segs.append(rng.choice(dd) if r < 0.45 else rng.choice(pool) if r < 0.9 else rng.choice(SURROGATES))
+        out = segs[0]
+        for sgm in segs[1:]:
+            out += ("/" if rng.random() < 0.75 else rng.choice(SLASHES)) + sgm
+        more.append(out)
+    return core_names, more
 
+
+def in_model(n):
+    """the Lean side has no lone surrogates (Char excludes them)"""
+    return not any(0xD800 <= ord(c) <= 0xDFFF for c in n)
+
+
+def show(n):
+    """for the evidence file (written as UTF-8): lone surrogates escaped"""
+    return n if in_model(n) else n.encode("utf-8", "backslashreplace").decode()
+
+
+class Sandbox:
+    """scratch tree: search directories three levels below the scratch top, sentinel files (content SECRET-…) at every
+    level outside them, the real loaders over it"""
+
+    def __init__(self, jinja2):
+        global _hook_installed
+        self.jinja2 = jinja2
+        if not _hook_installed:
+            sys.addaudithook(_hook)
+            _hook_installed = True
+        self.top = os.path.realpath(tempfile.mkdtemp(prefix="jv-c28-"))
+        self._syspath = []
+        try:
+            self._build()
+        except BaseException:
+            self.close()
+            raise
+
+    def _w(self, path, txt):
+        os.makedirs(os.path.dirname(path), exist_ok=True)
+        with open(path, "w") as f:
+            f.write(txt)
+
+    def _build(self):
+        jinja2 = self.jinja2
+        top = self.top
+        base = self.base = os.path.join(top, "o1", "o2", "base")
+        root = self.root = os.path.join(base, "root")
+        other = self.other = os.path.join(base, "root2")
+        pkgs = os.path.join(base, "pkgs")
+        tpl = os.path.join(pkgs, "jvpkg", "templates")
+        for d, tag in ((root, "IN"), (tpl, "PKG")):
+            self._w(os.path.join(d, "a", "b.html"), tag + "-a-b")
+            self._w(os.path.join(d, "b.html"), tag + "-b")
+            self._w(os.path.join(d, "sub", "b.html"), tag + "-sub")
+            self._w(os.path.join(d, "sub", "deep", "b.html"), tag + "-deep")
+            self._w(os.path.join(d, "．．", "b.html"), tag + "-fullwidth")
+            self._w(os.path.join(d, "..a"), tag + "-dotdota")
+        self._w(os.path.join(other, "a", "b.html"), "IN2-a-b")
+        self._w(os.path.join(other, "b.html"), "IN2-b")
+        self._w(os.path.join(other, "only2.html"), "IN2-only")
+        self._w(os.path.join(pkgs, "jvpkg", "__init__.py"), "")
+        # sentinels: everything outside a search directory that a '..' chain of up to three steps (four from sub/) reaches
+        outside = [top, os.path.join(top, "o1"), os.path.join(top, "o1", "o2"), base, pkgs, os.path.join(pkgs, "jvpkg")]
+        for i, d in enumerate(outside):
+            self._w(os.path.join(d, "secret.txt"), f"SECRET-{i}")
+            self._w(os.path.join(d, "b.html"), f"SECRET-b-{i}")
+            if d not in (top, base):
+                self._w(os.path.join(d, "a"), f"SECRET-a-{i}")
+        self._w(os.path.join(base, "a"), "SECRET-a")
+        os.symlink(root, os.path.join(base, "rootlink"))
+        # a package inside a zip archive, with sentinels inside the archive but outside its template directory
+        zpath = self.zpath = os.path.join(base, "zips", "jvz.zip")
+        os.makedirs(os.path.dirname(zpath))
+        with zipfile.ZipFile(zpath, "w") as z:
+            z.writestr("jvzpkg/__init__.py", "")
+            for nm, txt in (("a/b.html", "ZIP-a-b"), ("b.html", "ZIP-b"), ("sub/b.html", "ZIP-sub"), ("sub/deep/b.html", "ZIP-deep")):
+                z.writestr("jvzpkg/templates/" + nm, txt)
+            for nm in ("jvzpkg/secret.txt", "jvzpkg/b.html", "jvzpkg/a", "secret.txt", "b.html", "a"):
+                z.writestr(nm, "SECRET-zip-" + nm)
+        for sp in (pkgs, zpath):
+            sys.path.insert(0, sp)
+            self._syspath.append(sp)
+        FS, PK, PR, CH = jinja2.FileSystemLoader, jinja2.PackageLoader, jinja2.PrefixLoader, jinja2.ChoiceLoader
+        pkg = PK("jvpkg", "templates")
+        zpk = PK("jvzpkg", "templates")
+        if zpk._archive is None:
+            raise core.HarnessError("the zip package was not imported through zipimport")
+        ztpl = os.path.join(zpath, "jvzpkg", "templates")
+        for sp in self._syspath:
+            sys.path.remove(sp)
+        self._syspath = []
+        self.env = jinja2.Environment()
+        mods = os.path.join(base, "mods")
+        jinja2.Environment(loader=FS(root)).compile_templates(mods, zip=None, log_function=lambda *_: None)
+        # name -> (loader, allowed directories, prefix put before the name)
+        self.loaders = {
+            "fs": (FS(root), [root], ""),
+            "fs2": (FS([root, other]), [root, other], ""),
+            "fs-trailing-slash": (FS(root + "/"), [root], ""),
+            "fs-path": (FS(pathlib.Path(root)), [root], ""),
+            "fs-path2": (FS([pathlib.Path(other), root]), [root, other], ""),
+            "fs-rel": (FS(os.path.relpath(root)), [root], ""),
+            "fs-symlinked": (FS(os.path.join(base, "rootlink"), followlinks=True), [root], ""),
+            "fs-follow": (FS(root, followlinks=True), [root], ""),
+            "pkg": (pkg, [tpl], ""),
+            "pkg-zip": (zpk, [ztpl], ""),
+            "prefix-fs": (PR({"p": FS(root)}), [root], "p/"),
+            "prefix-colon": (PR({"fs": FS(root)}, delimiter=":"), [root], "fs:"),
+            "prefix-pkg-zip": (PR({"z": zpk, "d": pkg}), [ztpl], "z/"),
+            "choice-fs": (CH([FS(other), FS(root)]), [root, other], ""),
+            "choice-pkg-fs": (CH([zpk, pkg, FS(root)]), [root, tpl, ztpl], ""),
+            "nested": (CH([PR({"x": CH([FS(other), PR({"y": FS(root)})])}), jinja2.DictLoader({})]), [root, other], "x/y/"),
+            "module": (jinja2.ModuleLoader(mods), [mods], ""),
+        }
+        self.allowed_real = {k: [os.path.realpath(a) for a in v[1]] for k, v in self.loaders.items()}
+
+    def close(self):
+        for sp in self._syspath:
+            if sp in sys.path:
+                sys.path.remove(sp)
+        for m in ("jvpkg", "jvzpkg"):
+            sys.modules.pop(m, None)
+        zp = getattr(self, "zpath", None)
+        if zp:
+            sys.path_importer_cache.pop(zp, None)
+            try:
+                import zipimport
+                zipimport._zip_directory_cache.pop(zp, None)
+            except Exception:  # noqa
+                pass
+        self.loaders = {}
+        shutil.rmtree(self.top, ignore_errors=True)
+
+    def _inside(self, lname, path):
+        try:
+            rp = os.path.realpath(path)
+        except (ValueError, OSError):
+            return True, None
+        ok = any(rp == a or rp.startswith(a + os.sep) for a in self.allowed_real[lname])
+        return ok, rp
+
+    def lookup(self, lname, name, how="get_source"):
+        """one lookup on the real loader; the oracle is the file system: which files were opened, where the returned
+        filename really is, and whether sentinel content came back"""
+        from jinja2.exceptions import TemplateNotFound
+
+        loader, _allowed, prefix = self.loaders[lname]
+        variant = prefix + name
+        src = filename = None
+        _audit.log = []
+        try:
+            if how == "get_source" and lname != "module":
+                src, filename, _ = loader.get_source(self.env, variant)
+            elif how == "include":
+                env = self.jinja2.Environment(loader=loader, cache_size=0)
+                src = env.from_string("{% include n %}").render(n=variant)
+            else:
+                env = self.jinja2.Environment(loader=loader, cache_size=0)
+                t = env.get_template(variant)
+                src, filename = t.render(), t.filename
+            outcome = "ok"
+        except TemplateNotFound:
+            outcome = "notfound"
+        except Exception as e:  # noqa
+            outcome = f"raised:{type(e).__name__}"
+        finally:
+            opened = list(_audit.log)
+            _audit.log = None
+        bad = []
+        for pth in opened:
+            ok, rp = self._inside(lname, pth)
+            if not ok and rp != self.zpath and (rp.startswith(self.top + os.sep) or "secret" in rp):
+                bad.append(rp)
+        if filename is not None and lname != "module":
+            ok, rp = self._inside(lname, filename)
+            if not ok:
+                bad.append("returned filename " + str(rp))
+        leaked = src is not None and "SECRET" in src
+        return {"loader": lname, "name": name, "how": how, "asked": variant, "outcome": outcome, "source": src,
+                "outside": bad, "leaked": leaked}
+
+
+def run(ctx, res):
+    jinja2 = core.import_jinja()
+    from jinja2.exceptions import TemplateNotFound  # noqa
+
+    steer = bool(ctx.gen_changed or ctx.tie_broken or ctx.proof_broken)
     maxseg = ctx.pick(3, 4)
     names = set()
     for n in range(1, maxseg + 1):
@@ -73,101 +342,101 @@ def run(ctx, res):
     rng = ctx.rng("names")
     for _ in range(ctx.pick(2000, 20000)):
         names.append("".join(rng.choice(["a", "/", ".", "..", "\\", "b", "é", ":"]) for _ in range(rng.randrange(0, 12))))
-    # L-unit: split_template_path under POSIX and Windows separator parameters -----------------
-    reqs = [[Atom("path-split"), "/", Atom("none"), n] for n in names] + [[Atom("path-split"), "\\", "/", n] for n in names]
+    look_core, look_more = lookalike_names(ctx, ctx.rng("lookalike"), steer)
+    look_all = look_core + look_more
+    unit_names = names + sorted({n for n in look_all if in_model(n)})
+    out_of_model = sum(1 for n in set(look_all) if not in_model(n))
+    # what the translator read (reported; the proof over it is checked by the build)
+    prog = canon(core.driver_batch([[Atom("path-prog")]])[0])
+    prog_info = {"safeProg": prog[1][0], "stored_through": prog[1][1], "functions": prog[1][2]} if prog[0] == "ok" else {"reply": prog}
+    # L-unit: split_template_path under POSIX and Windows separator parameters, against the hand model and against
+    # the interpreter running the program read from the source ------------------------------------------------------
+    reqs = [[Atom("path-split"), "/", Atom("none"), n] for n in unit_names] + [[Atom("path-split"), "\\", "/", n] for n in unit_names]
+    greqs = [[Atom("path-split-gen")] + r[1:] for r in reqs]
     replies = core.driver_batch(reqs)
+    greplies = core.driver_batch(greqs)
     unit = 0
-    for i, (n, rep) in enumerate(zip(names + names, replies)):
-        windows = i >= len(names)
+    gen_declined = 0
+    caps = {}
+
+    def capped(key, n=5):
+        caps[key] = caps.get(key, 0) + 1
+        return caps[key] > n
+    for i, (n, rep, grep_) in enumerate(zip(unit_names + unit_names, replies, greplies)):
+        windows = i >= len(unit_names)
         got = real_split(n, "\\", "/") if windows else real_split(n)
         unit += 1
         want = canon(rep)
+        gwant = canon(grep_)
+        if gwant == ["oom"]:
+            gen_declined += 1
+        elif gwant != got and got[0] != "raised":
+            key = "C28:model-drift-gen"
+            if not capped(key, 1):
+                res.violate(key, f"split_template_path({n!r}) = {got!r} but the program read from the source, interpreted, "
+                            f"gives {gwant!r} (translator/interpreter no longer describe the function)",
+                            {"name": n, "windows": windows}, no_input=True)
         if got != want:
             # oracle: the property (accepted pieces are safe); a difference that keeps all pieces safe is model drift
             unsafe = got[0] == "ok" and any(p in ("..", ".", "") or "/" in p or (windows and "\\" in p) for p in got[1])
             accepted_escape = got[0] == "ok" and want[0] == "err"
             if unsafe or accepted_escape:
-                res.violate("C28:split:" + ("windows" if windows else "posix"),
-                            f"split_template_path({n!r}) with sep={'backslash' if windows else '/'} gives {got!r}; documented {want!r}",
-                            {"name": n, "windows": windows})
-            else:
+                key = "C28:split:" + ("windows" if windows else "posix")
+                if not capped(key):
+                    res.violate(key,
+                                f"split_template_path({n!r}) with sep={'backslash' if windows else '/'} gives {got!r}; documented {want!r}",
+                                {"name": n, "windows": windows})
+            elif not capped("C28:model-drift", 1):
                 res.violate("C28:model-drift", f"split_template_path({n!r}) = {got!r} but model {want!r} (pieces still safe)",
                             {"name": n, "windows": windows}, no_input=True)
-    # L-e2e: real loaders on a scratch tree with sentinels outside; audit hook records every open ----
-    if not _hook_installed:
-        sys.addaudithook(_hook)
-        _hook_installed = True
-    base = tempfile.mkdtemp(prefix="jv-c28-")
+    # L-e2e: real loaders on a scratch tree with sentinels outside; the file system is the oracle ------------------
     e2e = 0
     escapes = 0
+    outcomes = {}
+    extra = None
+    sb = Sandbox(jinja2)
     try:
-        root = os.path.join(base, "root")
-        other = os.path.join(base, "root2")
-        os.makedirs(os.path.join(root, "a"))
-        os.makedirs(os.path.join(root, "sub"))
-        os.makedirs(os.path.join(other, "a"))
-        pkgdir = os.path.join(base, "pkgs", "jvpkg", "templates", "a")
-        os.makedirs(pkgdir)
-        open(os.path.join(base, "pkgs", "jvpkg", "__init__.py"), "w").close()
-        for p, txt in ((os.path.join(root, "a", "b.html"), "IN-a-b"), (os.path.join(root, "b.html"), "IN-b"),
-                       (os.path.join(root, "sub", "b.html"), "IN-sub"), (os.path.join(other, "a", "b.html"), "IN2-a-b"),
-                       (os.path.join(other, "b.html"), "IN2-b"), (os.path.join(base, "secret.txt"), "SECRET"),
-                       (os.path.join(base, "b.html"), "SECRET-b"), (os.path.join(base, "a"), "SECRET-a"),
-                       (os.path.join(pkgdir, "b.html"), "PKG-a-b"), (os.path.join(base, "pkgs", "jvpkg", "templates", "b.html"), "PKG-b"),
-                       (os.path.join(base, "pkgs", "jvpkg", "b.html"), "SECRET-pkg")):
-            with open(p, "w") as f:
-                f.write(txt)
-        sys.path.insert(0, os.path.join(base, "pkgs"))
-        try:
-            loaders = {
-                "fs": (jinja2.FileSystemLoader(root), [root]),
-                "fs2": (jinja2.FileSystemLoader([root, other]), [root, other]),
-                "fs-trailing-slash": (jinja2.FileSystemLoader(root + "/"), [root]),
-                "pkg": (jinja2.PackageLoader("jvpkg", "templates"), [os.path.join(base, "pkgs", "jvpkg", "templates")]),
-                "prefix-fs": (jinja2.PrefixLoader({"p": jinja2.FileSystemLoader(root)}), [root]),
-                "prefix-colon": (jinja2.PrefixLoader({"fs": jinja2.FileSystemLoader(root)}, delimiter=":"), [root]),
-                "choice-fs": (jinja2.ChoiceLoader([jinja2.FileSystemLoader(other), jinja2.FileSystemLoader(root)]), [root, other]),
-            }
-            env = jinja2.Environment()
-            extra = [base + "/secret.txt", "/" + base + "/secret.txt", "//" + base + "/secret.txt", "../secret.txt",
-                     "a/../../secret.txt", "sub/../../b.html", "./../b.html", "..\\secret.txt", "a/b.html", "b.html",
-                     "sub/b.html", "a//b.html", "./a/./b.html", "/a/b.html", "a/b.html/", "a\\b.html"]
-            test_names = extra + (names if not ctx.quick else rng.sample(names, 1500))
-            for lname, (loader, allowed) in loaders.items():
-                allowed_real = [os.path.realpath(a) for a in allowed]
-                for n in test_names:
-                    for variant in ([n] if not lname.startswith("prefix") else
-                                    [("p/" if lname == "prefix-fs" else "fs:") + n]):
-                        _audit.log = []
-                        try:
-                            src = loader.get_source(env, variant)[0]
-                            outcome = "ok"
-                        except TemplateNotFound:
-                            src, outcome = None, "notfound"
-                        except Exception as e:  # noqa
-                            src, outcome = None, f"raised:{type(e).__name__}"
-                        opened = list(_audit.log)
-                        _audit.log = None
-                        e2e += 1
-                        bad = [p for p in opened if p.endswith((".html", ".txt")) or "secret" in p or p.endswith("/a")]
-                        bad = [p for p in bad if not any(os.path.realpath(p).startswith(a + os.sep) for a in allowed_real)]
-                        if bad or (src is not None and "SECRET" in src):
-                            escapes += 1
-                            res.violate(f"C28:escape:{lname}", f"{lname} loader asked for {variant!r} opened {bad[:2]} "
-                                        f"(source {src!r}) outside its search path {allowed}", {"loader": lname, "name": variant})
-                        if outcome.startswith("raised"):
-                            res.violate(f"C28:error-class:{lname}", f"{lname} loader asked for {variant!r}: {outcome} instead of TemplateNotFound",
-                                        {"loader": lname, "name": variant})
-        finally:
-            sys.path.remove(os.path.join(base, "pkgs"))
-            sys.modules.pop("jvpkg", None)
+        base = sb.base
+        extra = [base + "/secret.txt", "/" + base + "/secret.txt", "//" + base + "/secret.txt", "../secret.txt",
+                 "a/../../secret.txt", "sub/../../b.html", "./../b.html", "..\\secret.txt", "a/b.html", "b.html",
+                 "sub/b.html", "a//b.html", "./a/./b.html", "/a/b.html", "a/b.html/", "a\\b.html", "only2.html",
+                 "sub/deep/b.html", "．．/b.html", "..a", sb.zpath + "/secret.txt", "secret.txt"]
+        if ctx.quick and not steer:
+            test_names = extra + look_core + rng.sample(look_more, min(len(look_more), 1500)) + rng.sample(names, 1200)
+        else:
+            test_names = extra + look_all + names
+        load_names = extra + look_core[::3] + rng.sample(look_more, min(len(look_more), ctx.pick(300, 3000)))
+        plan = [(ln, n, "get_source") for ln in sb.loaders if ln != "module" for n in test_names]
+        plan += [(ln, n, how) for ln in ("fs", "pkg", "pkg-zip", "prefix-fs", "choice-pkg-fs", "module") for n in load_names
+                 for how in (("get_template", "include") if ln != "module" else ("get_template",))]
+        for lname, n, how in plan:
+            r = sb.lookup(lname, n, how)
+            e2e += 1
+            outcomes[r["outcome"].split(":")[0]] = outcomes.get(r["outcome"].split(":")[0], 0) + 1
+            if r["outside"] or r["leaked"]:
+                escapes += 1
+                key = f"C28:escape:{lname}"
+                if not capped(key):
+                    res.violate(key, f"{lname} loader ({how}) asked for {r['asked']!r} read outside its search path "
+                                f"{sb.loaders[lname][1]}: {r['outside'][:2]} source {r['source']!r}",
+                                {"loader": lname, "name": n, "how": how})
+            # ModuleLoader is not in the property's statement (it hashes the name, no path is built): only the
+            # file-system oracle applies to it, not the error class (a lone surrogate makes its sha1 key raise
+            # UnicodeEncodeError)
+            if r["outcome"].startswith("raised") and lname != "module":
+                key = f"C28:error-class:{lname}"
+                if not capped(key):
+                    res.violate(key, f"{lname} loader ({how}) asked for {r['asked']!r}: {r['outcome']} instead of TemplateNotFound",
+                                {"loader": lname, "name": n, "how": how})
     finally:
-        shutil.rmtree(base, ignore_errors=True)
+        sb.close()
     # join: posixpath.join vs model on accepted pieces --------------------------------------------
     jreqs, jmeta = [], []
-    for n in rng.sample(names, min(len(names), ctx.pick(1500, 8000))):
+    for n in rng.sample(unit_names, min(len(unit_names), ctx.pick(2500, 12000))):
         sp = real_split(n)
         if sp[0] == "ok":
+            if not all(in_model(x) for x in sp[1]):
+                continue
             for r in ("/srv/t", "/srv/t/", "rel/dir", "", "/"):
                 jreqs.append([Atom("path-join"), r, sp[1]])
                 jmeta.append((r, sp[1]))
@@ -179,14 +448,27 @@ def run(ctx, res):
     comp = run_compositions(ctx, res, jinja2)
     res.coverage.update({
         "evaluations": unit + e2e + len(jreqs) + comp["evaluations"],
-        "distinct_nontrivial": len(set(names)) + comp["distinct"],
-        "rule": (f"L-unit: every name of <= {maxseg} segments over 15 path fragments ('..', '.', '', backslash, drive, NUL, "
-                 "Unicode, ...) plus random names, split_template_path under POSIX and Windows separators; L-e2e: the "
-                 "same names against FileSystemLoader (one/two dirs, trailing slash), PackageLoader, PrefixLoader ('/' and "
-                 "':' delimiters) and ChoiceLoader on a scratch tree with sentinel files outside, every open() recorded "
-                 "by an audit hook; posixpath.join vs model; random choice/prefix compositions of DictLoaders"),
-        "samples": [{"name": "a/../../secret.txt"}, {"name": "//abs/secret.txt", "loader": "fs"}, comp["sample"]],
-        "unit_cases": unit, "e2e_lookups": e2e, "escapes": escapes, "compositions": comp["evaluations"],
+        "distinct_nontrivial": len(set(unit_names)) + out_of_model + comp["distinct"],
+        "rule": (f"Gen: the body of split_template_path read into a SplitProg, safeProg re-proved by decide. L-unit: every "
+                 f"name of <= {maxseg} segments over 15 path fragments ('..', '.', '', backslash, drive, NUL, Unicode, ...), "
+                 "random names, and names built from look-alikes (pairs of 13 dot look-alikes, 34 '..' look-alikes incl. "
+                 "padded/percent-encoded/combining/zero-width forms, 25 slash/backslash look-alikes embedded in one segment, "
+                 "22 device/trailing-dot/case names, random mixtures), split_template_path under POSIX and Windows "
+                 "separators against the hand model and the interpreted Gen program; non-trivial = distinct name. L-e2e: "
+                 "the same names (quick: all core look-alikes + samples; thorough or broken tie: all) and 8 lone-surrogate "
+                 "forms against 16 loaders (FileSystemLoader str/Path/relative/symlinked/two dirs/followlinks, PackageLoader "
+                 "directory and zip, PrefixLoader, ChoiceLoader, nested) via get_source, and a subset via "
+                 "Environment.get_template, {% include %} and ModuleLoader, on a scratch tree with sentinel files at six "
+                 "levels outside; oracle: every open() recorded by an audit hook and the realpath of the returned filename "
+                 "are under a search directory, no sentinel content returned, only TemplateNotFound raised; posixpath.join "
+                 "vs model; random choice/prefix compositions and content-changing histories of DictLoaders"),
+        "samples": [{"name": "a/../../secret.txt"}, {"name": show(look_core[0]), "loader": "fs"},
+                    {"name": show(look_core[len(look_core) // 2]), "loader": "pkg-zip"}, {"name": show(look_more[-1])},
+                    comp["sample"]],
+        "unit_cases": unit, "unit_names": len(unit_names), "lookalike_names": len(set(look_all)),
+        "out_of_model_names": out_of_model, "gen_program": prog_info, "gen_interpreter_declined": gen_declined,
+        "e2e_lookups": e2e, "e2e_names": len(set(test_names)), "e2e_outcomes": outcomes, "escapes": escapes,
+        "steered_by_broken_tie": steer, "compositions": comp["evaluations"],
     })
 
 
@@ -285,4 +567,12 @@ def replay(ctx, case):
     c = case["case"]
     if "name" in c and "loader" not in c:
         return {"impl": real_split(c["name"], "\\", "/") if c.get("windows") else real_split(c["name"])}
+    if "loader" in c:
+        sb = Sandbox(core.import_jinja())
+        try:
+            r = sb.lookup(c["loader"], c["name"], c.get("how", "get_source"))
+            r["search_path"] = sb.loaders[c["loader"]][1]
+            return r
+        finally:
+            sb.close()
     return c
